@@ -21,6 +21,7 @@ import (
 	libocrtypes "github.com/smartcontractkit/libocr/ragep2p/types"
 
 	"github.com/smartcontractkit/chainlink-ccip/chainconfig"
+	"github.com/smartcontractkit/chainlink-ccip/execute/exectypes"
 	"github.com/smartcontractkit/chainlink-ccip/internal/mocks"
 	"github.com/smartcontractkit/chainlink-ccip/internal/plugincommon"
 	"github.com/smartcontractkit/chainlink-ccip/internal/reader"
@@ -94,6 +95,14 @@ func TestVerif_C16_exec_roles(t *testing.T) {
 	n := vEnvInt("VERIF_N", 40)
 	sink := vOpenSink("C16_gate_exec_roles")
 	defer sink.Close()
+	rsink := vOpenSink("C16_rep_exec_roles")
+	defer rsink.Close()
+	oc := exectypes.Outcome{State: exectypes.Filter,
+		Report: cciptypes.ExecutePluginReport{ChainReports: []cciptypes.ExecutePluginReportSingleChain{{SourceChainSelector: 5}}}}
+	ocb, err := oc.Encode()
+	if err != nil {
+		t.Fatal(err)
+	}
 	codec := mocks.NewExecutePluginJSONReportCodec()
 	rep := cciptypes.ExecutePluginReport{ChainReports: []cciptypes.ExecutePluginReportSingleChain{{SourceChainSelector: 5}}}
 	rb, _ := codec.Encode(ctx, rep)
@@ -172,7 +181,61 @@ func TestVerif_C16_exec_roles(t *testing.T) {
 				sink.Emit("C16_gate_exec_roles", cls, true, cPair(in, code),
 					map[string]any{"history": i, "step": st, "oracle": o, "dest_writers": fmt.Sprint(home.readers[vC16Dest]), "candidate": cand})
 			}
+			vC16RolesReports(ctx, rsink, plugins, ocb, writer, i, st)
 		}
 		_ = hc.Close()
 	}
+}
+
+// Plugin.Reports of every long-lived oracle for the same outcome: all oracles must attach the schedule derived from
+// the destination-writer set fetched last (seeded change C10-5 computed the schedule once per instance)
+func vC16RolesReports(ctx context.Context, rsink *vSink, plugins []*Plugin, ocb []byte, writer map[int]bool, i, st int) {
+	var outs []string
+	seen := map[string]bool{}
+	for o := range plugins {
+		reports, err := plugins[o].Reports(ctx, uint64(st+1), ocb)
+		var s string
+		switch {
+		case err != nil:
+			s = "Err"
+		case len(reports) == 0:
+			s = "(Ok None)"
+		default:
+			sc := reports[0].TransmissionScheduleOverride
+			if sc == nil {
+				s = "Panic"
+			} else {
+				tr := make([]string, len(sc.Transmitters))
+				for x, id := range sc.Transmitters {
+					tr[x] = cN(uint64(id))
+				}
+				dl := make([]string, len(sc.TransmissionDelays))
+				for x, d := range sc.TransmissionDelays {
+					dl[x] = cZ(int64(d))
+				}
+				s = "(Ok (Some " + cPair(cList(tr), cList(dl)) + "))"
+			}
+		}
+		if !seen[s] {
+			seen[s] = true
+			outs = append(outs, s)
+		}
+	}
+	items := make([]string, len(plugins))
+	nw := 0
+	for o := range plugins {
+		w := 0
+		if writer[o] {
+			w = 1
+			nw++
+		}
+		items[o] = cPair(cN(uint64(o)), cNi(w))
+	}
+	in := cTup(cN(1), cList(items), cBool(false), cZ(int64(transmissionDelayMultiplier)))
+	cls := "reports-first-poll"
+	if st > 0 {
+		cls = "reports-after-change"
+	}
+	rsink.Emit("C16_rep_exec_roles", cls, nw >= 1, cPair(in, cList(outs)),
+		map[string]any{"history": i, "step": st, "dest_writers": nw, "long_lived_instances": len(plugins)})
 }
